@@ -87,8 +87,11 @@ def copyH : Handler := fun inp impl => do
     (!clean || (iw == stream && (ie == "none") == (endOf s == .eof))) &&
     (clean || ie == "write" || ie == "short") && (w != [] || clean)
   let big := s.any (fun e => match e with | .chunk b => b.length > copyBufSize | _ => false)
+  -- `coalesce`: the real reader hands out its last bytes together with the EOF/error, (n > 0, err); for
+  -- copyBuffer as written that is the same as two reads, so the prediction does not change
+  let dataErr := (inp.getObjValAs? Bool "coalesce").toOption.getD false
   return ({ model := m, agree := m == impl, spec := spec, nontrivial := numChunks s ≥ 2 || big,
-            tag := copyErrName r.err ++ (if big then "-big" else "") } : Verdict).toJson
+            tag := copyErrName r.err ++ (if big then "-big" else "") ++ (if dataErr then "-dataerr" else "") } : Verdict).toJson
 
 /-! ### c09.bufio -/
 
